@@ -10,7 +10,12 @@ A *case* is a JSON object::
      "async": null|"onconnect"|"onconnecting",        # server onConnect() / client onConnecting() return a PENDING
                                                       # Deferred (Twisted) / Future (asyncio) the harness resolves with
                                                       # the event ["res", kind]; "oht": openHandshakeTimeout;
-     "late": kind}                                    # how a still pending result is resolved AFTER the transport is gone
+     "late": kind,                                    # how a still pending result is resolved AFTER the transport is gone
+     "inclose": null|"msg"|"close"|"ping"|"prepared"|"stream"|"raise"|"all",   # what the app does from INSIDE onClose
+     "onc_raise": reason-key,                         # client: onConnect() raises RuntimeError(REASONS[key]) -> the LIBRARY
+                                                      # fails the connection with a reason text it derives from the exception
+     "pmce": bool}                                    # permessage-deflate negotiated (only to reach the library's long
+                                                      # "could not decompress ..." failure reason: ["pviol", "badz"])
 
 The harness plays the peer with raw octets (``rfc6455_ref.encode_frame``), owns virtual time and
 the transport.  Everything asserted is what the property statement says (see checks/c05.py);
@@ -50,6 +55,18 @@ REASONS = {
     "mb3x100": "€" * 100,                  # 300 bytes, 123 = 41 whole code points
     "mb4x40": "\U0001f600" * 40,                # 160 bytes, 123 = 30.75 code points
     "mix": "aé€\U0001f600" * 20,
+    "short": "boom",
+    "b122": "r" * 122,
+    "b125": "r" * 125,
+    "b126": "r" * 126,
+    "mb2@123": "r" * 123 + "é",            # 2-byte code point occupying bytes 124..125 (inside a 125-octet cut)
+    "mb3@123": "r" * 123 + "€",
+    "mb4@123": "r" * 123 + "\U0001f600",
+    "mb2x1+": "x" + "é" * 100,
+    "mb3x1+": "x" + "€" * 100,
+    "mb4x1+": "x" + "\U0001f600" * 40,
+    "mb4x2+": "xy" + "\U0001f600" * 40,
+    "mb4x3+": "xyz" + "\U0001f600" * 40,
 }
 CLOSE_CODES = [None, 1000, 3000, 3999, 4000, 4999,            # accepted by the API
                999, 1001, 1002, 1005, 1006, 1015, 2999, 5000, 0, 65536, "1000"]   # rejected by the API (raise to caller)
@@ -162,6 +179,9 @@ class Mon:
         self.n_resolved = 0
         self.res_timing = []            # when each result was delivered: while-connecting | after-timeout | after-local-drop | after-lost
         self.evidx = None               # index into ep.events at the time onClose was delivered
+        self.inclose = case.get("inclose")
+        self.state_in_onclose = None
+        self.pmce = bool(case.get("pmce"))
 
     # ---- violations -------------------------------------------------------------------------------
     def violation(self, clause, what, **detail):
@@ -217,6 +237,16 @@ class Mon:
                                    "onClose%r delivered before the transport's connection-lost notification (at %s)" % (
                                        tuple(data), self.site), site=self.site)
                 self.check_onclose(*data)
+                # what the application sees when it looks at the connection from inside onClose
+                self.state_in_onclose = getattr(proto, "state", None)
+                self.R.seen("state_inside_onclose", _state_name(self.state_in_onclose))
+                self.R.count("state_inside_onclose_checked")
+                if self.state_in_onclose != ST_CLOSED:
+                    self.violation("onClose/state-not-closed",
+                                   "inside onClose (transport gone) the connection's state is %s, not CLOSED (at %s)" % (
+                                       _state_name(self.state_in_onclose), self.site), site=self.site)
+                if self.inclose:
+                    self.act_inside_onclose(self.inclose)
         elif kind == "onMessage":
             react = self.case.get("react")
             if react:
@@ -330,6 +360,12 @@ class Mon:
                 if not ref.is_valid_utf8(reason):
                     self.violation("close-frame/reason-not-utf8/%s" % site,
                                    "close frame written whose reason is not valid UTF-8: %s" % reason.hex(), site=site)
+                if (self.case.get("onc_raise") and site == "handshake") or (self.pmce and code == 1007 and site == "peer-violation"):
+                    # the reason text was produced by the library (connection failed by it), not passed to sendClose()
+                    self.R.count("lib_reason_close_frames_checked")
+                    self.R.seen("lib_reason_lengths", "%d" % len(reason))
+                    if len(reason) >= 120:
+                        self.R.count("lib_reason_at_limit_checked")
                 if len(reason) >= 120:
                     self.R.count("close_reason_near_limit_checked")
                     self.R.seen("close_reason_lengths", "%d" % len(reason))
@@ -369,6 +405,61 @@ class Mon:
             self.R.seen("api_exceptions_kinds", "%s/%s/%s" % (site, _state_name(self.cur_state), type(e).__name__))
         finally:
             self.site = prev
+
+    def writes_since_onclose(self):
+        """transport.write() calls since onClose was entered / since the last call (every kind: accepted, on a lost,
+        aborted or closing transport)"""
+        ep = self.ep
+        n = 0
+        if self.wal_at_onclose is not None and ep.writes_after_lost > self.wal_at_onclose:
+            n = ep.writes_after_lost - self.wal_at_onclose
+            self.wal_at_onclose = ep.writes_after_lost
+        if self.evidx is not None:
+            evs = ep.events
+            n2 = sum(1 for i in range(self.evidx, len(evs)) if evs[i][1] in WRITE_EVENTS)
+            self.evidx = len(evs)
+            n = max(n, n2)
+        return n
+
+    def act_inside_onclose(self, what):
+        """the application touches the connection from inside its close notification"""
+        p = self.proto
+        R = self.R
+        acts = {"msg": ["msg"], "close": ["close"], "ping": ["ping", "pong"], "prepared": ["prepared"], "stream": ["stream"],
+                "raise": ["msg", "raise"], "all": ["msg", "ping", "pong", "close", "prepared", "stream"]}[what]
+        prev_site = self.site
+        for a in acts:
+            self.writes_since_onclose()
+            st0 = self.cur_state
+            if a == "msg":
+                self.api("in-onClose/sendMessage", p.sendMessage, b"goodbye", False)
+            elif a == "close":
+                self.api("in-onClose/sendClose", p.sendClose, 1000, "from onClose")
+            elif a == "ping":
+                self.api("in-onClose/sendPing", p.sendPing, b"pi")
+            elif a == "pong":
+                self.api("in-onClose/sendPong", p.sendPong, b"po")
+            elif a == "prepared":
+                self.api("in-onClose/sendPreparedMessage", lambda: p.sendPreparedMessage(self.prepared()))
+            elif a == "stream":
+                self.api("in-onClose/beginMessage", p.beginMessage, True)
+                self.api("in-onClose/sendMessageFrame", p.sendMessageFrame, b"s1")
+                self.api("in-onClose/endMessage", p.endMessage)
+            elif a == "raise":
+                R.count("inclose_raised")
+                self.site = prev_site
+                raise RuntimeError("application error inside onClose")
+            R.count("inclose_actions")
+            n = self.writes_since_onclose()
+            if n:
+                self.violation("write-after-onClose/in-onClose-%s" % a,
+                               "%d transport write(s) from a send API called inside onClose (transport already gone)" % n, site=a)
+            if self.cur_state != st0:
+                # a transition started from inside the close notification (e.g. OPEN -> CLOSING by sendClose)
+                self.violation("onClose/state-changed-inside-%s" % a,
+                               "state went %s -> %s by a call made inside onClose" % (_state_name(st0), _state_name(self.cur_state)),
+                               site=a)
+        self.site = prev_site
 
     def react(self, what):
         p = self.proto
@@ -437,7 +528,8 @@ class Mon:
         self.site = "handshake"
         if self.role == "server":
             self.hs_done = True
-            req, _ = ref.client_request(key=HS_KEY, protocols=["p1", "p2"] if self.amode else None)
+            req, _ = ref.client_request(key=HS_KEY, protocols=["p1", "p2"] if self.amode else None,
+                                        extensions="permessage-deflate" if self.pmce else None)
             if self.deliverable():
                 self.ep.feed(req)
         else:
@@ -447,7 +539,8 @@ class Mon:
             self.hs_done = True
             if parsed and self.deliverable():
                 key = (parsed[1].get("sec-websocket-key") or [HS_KEY])[0]
-                self.ep.feed(ref.server_response(key))
+                offered = self.pmce and bool(parsed[1].get("sec-websocket-extensions"))
+                self.ep.feed(ref.server_response(key, extensions="permessage-deflate" if offered else None))
         self.world.settle()
 
     # ---- asynchronous application decisions during the opening handshake ------------------------------
@@ -472,6 +565,12 @@ class Mon:
 
     def script_on_connect(self, proto, request):
         return self.app_pending("onConnect")
+
+    def script_on_connect_raise(self, proto, response):
+        # client: "give the client a chance to bail out" - the library fails the connection with a reason IT derives from
+        # the exception (asyncio: its text; Twisted: the Failure's text, which embeds it)
+        self.R.count("client_onconnect_raised")
+        raise RuntimeError(REASONS[self.case["onc_raise"]])
 
     def awaiting_result(self):
         return any(not r[1] for r in self.pending)
@@ -617,6 +716,10 @@ class Mon:
             d = self.pframe(ref.OP_PING, b"p" * 126)
         elif kind == "ctlopcode":
             d = self.pframe(11, b"")
+        elif kind == "badz":
+            # RSV1 text frame whose payload is no deflate stream: with permessage-deflate negotiated the library fails the
+            # connection with ITS OWN long reason text ("could not decompress payload of compressed message [...]: ...")
+            d = self.pframe(ref.OP_TEXT, b"\xff\xff\xff\xff no deflate stream", rsv=4)
         else:
             raise ValueError(kind)
         self.feed_frames([("raw", d)])
@@ -659,17 +762,9 @@ class Mon:
         self.world.settle()
         self.scan_output()
         ep = self.ep
-        n = 0
-        if self.onclose and self.wal_at_onclose is not None and ep.writes_after_lost > self.wal_at_onclose:
-            n = ep.writes_after_lost - self.wal_at_onclose
-            self.wal_at_onclose = ep.writes_after_lost
-        if self.onclose and self.evidx is not None:
-            # the endpoint log sees every transport.write() call, also those on a transport that was aborted before it
-            # was lost (which the fake Twisted transport does not count in writes_after_lost)
-            evs = ep.events
-            n2 = sum(1 for i in range(self.evidx, len(evs)) if evs[i][1] in WRITE_EVENTS)
-            self.evidx = len(evs)
-            n = max(n, n2)
+        # the endpoint log sees every transport.write() call, also those on a transport that was aborted before it
+        # was lost (which the fake Twisted transport does not count in writes_after_lost)
+        n = self.writes_since_onclose() if self.onclose else 0
         detached = 0
         if self.world.escaped:
             for who, e in self.world.escaped:
@@ -761,6 +856,14 @@ class Mon:
                 "closeHandshakeTimeout": self.cht}
         if "oht" in case:
             opts["openHandshakeTimeout"] = case["oht"]
+        if self.pmce:
+            from autobahn.websocket.compress import PerMessageDeflateOffer, PerMessageDeflateOfferAccept
+
+            if self.role == "server":
+                opts["perMessageCompressionAccept"] = lambda offers: next(
+                    (PerMessageDeflateOfferAccept(o) for o in offers if isinstance(o, PerMessageDeflateOffer)), None)
+            else:
+                opts["perMessageCompressionOffers"] = [PerMessageDeflateOffer()]
         _CUR[0] = self
         try:
             if self.role == "server":
@@ -770,6 +873,8 @@ class Mon:
             else:
                 opts["serverConnectionDropTimeout"] = self.sdt
                 f = w.client_factory(options=opts, protocol_base=_base("client"))
+                if case.get("onc_raise"):
+                    f.vf_on_connect = self.script_on_connect_raise
             self.ep = w.attach(f, self.role)
         finally:
             _CUR[0] = None
@@ -820,6 +925,14 @@ class Mon:
                 self.violation("onClose/missing", "connection-lost was delivered but onClose never fired", lost=ep.lost)
         if self.cur_state != ST_CLOSED:
             self.violation("not-closed-after-transport-lost", "transport is gone but state is %s" % _state_name(self.cur_state))
+        ic = getattr(self.proto, "is_closed", None)
+        if ic is not None:
+            R.count("is_closed_checked")
+            done = bool(ic.called) if self.world.fw == "tx" else bool(ic.done())
+            if not done:
+                self.violation("is_closed/unresolved-after-transport-lost",
+                               "transport is gone and onClose %s but the is_closed future is still pending" % (
+                                   "ran" if self.onclose else "never ran"))
         R.seen("final_paths", "%s/%s" % (self.role, ">".join(_state_name(b) for _, b in self.transitions)))
         if self.onclose:
             R.seen("onclose_shapes", "%s/%s/%s" % (self.role, self.onclose[0][1], self.onclose[0][2]))
